@@ -206,7 +206,7 @@ PROPS = {
         "assumptions": ["behavioural equivalence itself is the conjunction of C02-C06, C13, C14, C20 and of semantic facts not decided statically"],
     },
     "C18": {
-        "rules": [panics.rule_panic(("A", "B")), panics.rule_gact, termination.rule_descent, termination.rule_loops, panics.rule_span, panics.rule_idxguard, hygiene.rule_fvscope, typing_rules.rule_tywf, typing_rules.rule_tyrule, formatting.rule_nameprint],
+        "rules": [panics.rule_panic(("A", "B")), panics.rule_gact, termination.rule_descent, termination.rule_loops, panics.rule_span, panics.rule_idxguard, hygiene.rule_fvscope, typing_rules.rule_tywf, typing_rules.rule_tyrule, formatting.rule_nameprint, panics.rule_negrange],
         "text": "Panic-site closure: every panic-capable construct reachable in the resolved whole-workspace call graph from the "
                 "parser, the type checker and every later stage entry point is enumerated and must be an audited row; zone A "
                 "(everything reachable from parse_module/parse_term/Program::check, including all 399 grammar actions) accepts "
